@@ -1418,3 +1418,64 @@ func runR147(c *Ctx) {
 	}
 	c.okTrivial("scan", "-", "code arrays allocated with a length are filled")
 }
+
+// ---------- R148 ----------
+
+func init() {
+	register(&Rule{ID: "R148", Name: "CELL-NOT-NARROWED", Floor: 1,
+		Text: "in the five column packages no integer is converted to a narrower integer type (int/int64/uint64 to 32, 16 or 8 bits) unless the conversion stands under a dominating comparison of the value being converted with a constant or a length (a range test made *before* the conversion): cells, differences of cells and hashes are 64-bit quantities, and a narrowed copy equals the original only for small values - an offset into a bitmap of a value set computed as uint32(cell - min) folds a cell 2^32 away onto a member. Frozen: none needed on today's tree (the only conversion to a byte converts an 8-bit enum code)",
+		Run:  runR148})
+}
+
+func runR148(c *Ctx) {
+	p := c.P
+	n := 0
+	for _, cp := range columnPkgs {
+		for _, fn := range p.FuncsIn(cp) {
+			fnm := fname(fn)
+			eachInstr(fn, func(in ssa.Instruction) {
+				cv, ok := in.(*ssa.Convert)
+				if !ok {
+					return
+				}
+				from, to := intSize(cv.X.Type()), intSize(cv.Type())
+				if from == 0 || to == 0 || to >= from {
+					return
+				}
+				if _, isConst := cv.X.(*ssa.Const); isConst {
+					return
+				}
+				// conversions to a domain type of the module (the 8-bit enum code) have rules of their own (R33, R34)
+				if nt, isNamed := cv.Type().(*types.Named); isNamed && nt.Obj().Pkg() != nil && inModule(nt.Obj().Pkg()) {
+					return
+				}
+				n++
+				key := fnm + "|" + cv.X.Type().String() + " -> " + cv.Type().String()
+				// a range test of the converted value (or of an operand of it) before the conversion
+				operands := map[ssa.Value]bool{cv.X: true}
+				if bo, ok := cv.X.(*ssa.BinOp); ok {
+					operands[bo.X], operands[bo.Y] = true, true
+				}
+				guarded := false
+				for _, g := range dominatingGuards(cv.Block()) {
+					cmp, ok := g.Cond.(*ssa.BinOp)
+					if !ok {
+						continue
+					}
+					switch cmp.Op {
+					case token.LSS, token.LEQ, token.GTR, token.GEQ:
+						if operands[cmp.X] || operands[cmp.Y] {
+							guarded = true
+						}
+					}
+				}
+				if guarded {
+					c.ok(key, p.instrPos(cv), "narrowed after a range test of the value")
+				} else {
+					c.bad(key, p.instrPos(cv), fmt.Sprintf("a %d-bit integer is narrowed to %d bits without a preceding range test: for values that do not fit, the narrowed copy denotes another value (a distant cell aliases a member of the set, a large count wraps)", from, to))
+				}
+			})
+		}
+	}
+	c.okTrivial("scan", "-", fmt.Sprintf("%d narrowing integer conversions in the column packages", n))
+}
